@@ -1,5 +1,7 @@
 import HgVerif.Model.Engine
 import HgVerif.Lemmas.Sched
+import HgVerif.Props.C02
+import HgVerif.Model.Nested
 /-!
 # C09 — a sub-graph behaves the same inlined or nested (scheduling invariants of the boundary)
 
@@ -52,3 +54,68 @@ def NestedSimInlined : Prop :=
   ∀ (_nested _inlined : CProg), True
 
 end HgVerif.Engine
+
+/-! ## none of the child's wake-ups is lost (generic layer, arbitrary child behaviours) -/
+namespace HgVerif.Sched
+
+/-- after the nested node has been evaluated at `t` (the child's cycle completed), the parent's slot
+    for the nested node is armed strictly after `t` and **no later than every future slot of the
+    child** — so the parent's next wake-up of the nested node cannot pass a child wake-up (with
+    `scan_next_lower` for the parent graph, the root's next cycle cannot either) -/
+theorem child_wakeups_kept {σ : Type} (fx : Bool) (γ : Beh σ) (m : Nat) (hγ : Disc γ m) (t : Time) (s : Nest) (u : σ)
+    (hlen : s.gc.slots.length = m) (hc : s.gc.cursor = 0) (hk : s.k < s.gp.slots.length)
+    (hpnow : s.gp.now = t) (hdue : slotOf s.gp s.k = t)
+    (hok : (cycle fx γ m t s.gc u).ok = true) :
+    ∀ j, j < m → t < slotOf (Nest.eval fx γ m t s u).1.gc j →
+      t < slotOf (Nest.eval fx γ m t s u).1.gp s.k ∧
+      slotOf (Nest.eval fx γ m t s u).1.gp s.k ≤ slotOf (Nest.eval fx γ m t s u).1.gc j := by
+  intro j hj hlt
+  have hgc : (Nest.eval fx γ m t s u).1.gc = (cycle fx γ m t s.gc u).g := rfl
+  rw [hgc] at hlt ⊢
+  obtain ⟨nx, hnx, hle⟩ := scan_next_lower fx γ m hγ t s.gc u hlen hc hok j hj hlt
+  have hgt := cycle_next_gt fx γ m hγ t s.gc u hlen hc hok nx hnx
+  have hgp : (Nest.eval fx γ m t s u).1.gp = scheduleNode s.gp ⟨s.k, nx⟩ := by
+    simp [Nest.eval, hnx, hok]
+  rw [hgp, scheduleNode_slots s.gp ⟨s.k, nx⟩ s.k hk]
+  have hacc : accepts s.gp ⟨s.k, nx⟩ := by
+    unfold accepts; left; rw [hpnow]; exact Nat.le_of_eq hdue
+  rw [if_pos ⟨rfl, hacc⟩]
+  exact ⟨hgt, hle⟩
+
+/-- the push path: an out-of-band schedule on the idle child is clamped to the parent's time and
+    the parent's slot for the nested node ends up **no later than** the time the child was given -/
+theorem push_wakes_parent (s : Nest) (j : Nat) (w : Time) (hk : s.k < s.gp.slots.length) (hj : j < s.gc.slots.length) :
+    let w' := max w s.gp.now
+    s.gp.now ≤ w' ∧
+    (slotOf (s.push j w).gc j = w' ∨ slotOf (s.push j w).gc j = slotOf s.gc j) ∧
+    (slotOf s.gp s.k ≤ s.gp.now → slotOf (s.push j w).gp s.k = w') ∧
+    (s.gp.now < slotOf s.gp s.k → slotOf (s.push j w).gp s.k ≤ w' ∧ slotOf (s.push j w).gp s.k ≤ slotOf s.gp s.k) := by
+  intro w'
+  have hw' : s.gp.now ≤ w' := Nat.le_max_right _ _
+  refine ⟨hw', ?_, ?_, ?_⟩
+  · have : (s.push j w).gc.slots = (scheduleNode s.gc ⟨j, w'⟩).slots := by
+      simp only [Nest.push]; split <;> rfl
+    have h2 : slotOf (s.push j w).gc j = slotOf (scheduleNode s.gc ⟨j, w'⟩) j := by simp [slotOf, this]
+    rw [h2, scheduleNode_slots s.gc ⟨j, w'⟩ j hj]
+    by_cases hacc : accepts s.gc ⟨j, w'⟩
+    · left; rw [if_pos ⟨rfl, hacc⟩]
+    · right; rw [if_neg (fun h => hacc h.2)]
+  · intro hcons
+    have : (s.push j w).gp = scheduleNode s.gp ⟨s.k, w'⟩ := rfl
+    rw [this, scheduleNode_slots s.gp ⟨s.k, w'⟩ s.k hk]
+    have hacc : accepts s.gp ⟨s.k, w'⟩ := Or.inl hcons
+    rw [if_pos ⟨rfl, hacc⟩]
+  · intro harmed
+    have : (s.push j w).gp = scheduleNode s.gp ⟨s.k, w'⟩ := rfl
+    rw [this, scheduleNode_slots s.gp ⟨s.k, w'⟩ s.k hk]
+    by_cases hacc : accepts s.gp ⟨s.k, w'⟩
+    · rw [if_pos ⟨rfl, hacc⟩]
+      have hacc' : slotOf s.gp s.k ≤ s.gp.now ∨ w' < slotOf s.gp s.k := hacc
+      show w' ≤ w' ∧ w' ≤ slotOf s.gp s.k
+      exact ⟨Nat.le_refl _, by omega⟩
+    · rw [if_neg (fun h => hacc h.2)]
+      have hacc' : ¬ (slotOf s.gp s.k ≤ s.gp.now ∨ w' < slotOf s.gp s.k) := hacc
+      show slotOf s.gp s.k ≤ w' ∧ slotOf s.gp s.k ≤ slotOf s.gp s.k
+      exact ⟨by omega, Nat.le_refl _⟩
+
+end HgVerif.Sched
